@@ -145,7 +145,7 @@ def check(text, flags, inputs):
     exc = None
     _state["active"] = True
     try:
-        with harness.watchdog(20), contextlib.redirect_stdout(out_host), contextlib.redirect_stderr(err_host), harness.fuel(1_500_000):
+        with harness.watchdog(6), contextlib.redirect_stdout(out_host), contextlib.redirect_stderr(err_host), harness.fuel(300_000):
             vyxal.main.execute_vyxal(text, flags + "e", "\n".join(inputs), rec, True)
     except (harness.FuelExhausted, harness.Inconclusive, RecursionError, MemoryError) as e:
         _state["active"] = False
